@@ -297,7 +297,7 @@ func (e *Env) CheckPage(k Call, o *ListObs, p PageSpec) {
 	if nt, why := nonTrivialPage(p.Index, p.Size, n); nt {
 		c.NonTrivial()
 		c.Class("page-" + why)
-		c.NonTrivialItem(k.Method + "/" + why)
+		c.NonTrivialItem(k.RPCName() + "/" + why)
 	}
 	if o.Count != p.WantCount {
 		c.Failf(keyCount, "%s: count=%d, the ledger holds %d", k, o.Count, p.WantCount)
